@@ -39,6 +39,10 @@ BAD = ["float-comment", "none-in-announce", "surrogate-comment", "surrogate-url"
        "dict-bool-key", "dict-int-key", "dict-tuple-key"]
 
 
+FNAMES = ["m.torrent.tmp", "meta.tmp", "m.torrent.new", "m.torrent~", ".m.torrent.swp", "m.torrent.part", "m.torrent.bak",
+          "m", ".tmp", "tmp", "m.torrent.lock", "#m.torrent#"]
+
+
 def strategy(tier):
     @st.composite
     def case(draw):
@@ -49,7 +53,10 @@ def strategy(tier):
              "stale": draw(st.sampled_from([False, False, True])),
              # the metafile is writable but its directory refuses new entries (no staging file, no rename): an environment, on top
              # of which the single faults are enumerated as usual
-             "refuse_new": draw(st.sampled_from([False] * 4 + [True]))}
+             "refuse_new": draw(st.sampled_from([False] * 4 + [True])),
+             # the metafile's own name may look like a staging / backup file (round 8: a sweep of "leftover" *.tmp files removed
+             # the metafile itself before the new content existed)
+             "fname": draw(st.sampled_from(["m.torrent"] * 6 + FNAMES))}
         if draw(st.sampled_from([False] * 6 + [True])):
             c["bad"] = draw(st.sampled_from(BAD))
         else:
@@ -134,7 +141,8 @@ def run_case(case):
             counter[0] += 1
             d = os.path.join(scr, "run%d" % counter[0])
             os.mkdir(d)
-            p = os.path.join(d, "m.torrent")
+            fname = case.get("fname", "m.torrent")
+            p = os.path.join(d, fname)
             if case.get("link") == "sym":
                 shutil.copyfile(src, os.path.join(d, "real-file.torrent"))
                 os.symlink("real-file.torrent", p)
@@ -143,7 +151,10 @@ def run_case(case):
                 if case.get("link") == "hard":
                     os.link(p, os.path.join(d, "other-name.torrent"))
             if case.get("stale"):
-                for nm in ("m.torrent.tmp", "m.torrent.new", ".m.torrent.tmp", "m.torrent~", "m.tmp", ".m.torrent.swp"):
+                for nm in ("m.torrent.tmp", "m.torrent.new", ".m.torrent.tmp", "m.torrent~", "m.tmp", ".m.torrent.swp",
+                           fname + ".tmp", "." + fname + ".tmp"):
+                    if nm == fname:
+                        continue
                     with open(os.path.join(d, nm), "wb") as fd:
                         fd.write(b"stale staging data " * 400)
             return d, p
@@ -163,6 +174,8 @@ def run_case(case):
         classes = ["ops=%d" % min(len(trace), 8)]
         if case.get("link"):
             classes.append("metafile-" + case["link"] + "link")
+        if case.get("fname", "m.torrent") != "m.torrent":
+            classes.append("metafile-named-like-a-staging-file")
         if refuse:
             classes.append("directory-refuses-new-entries")
         if raised is not None:
